@@ -24,6 +24,8 @@ Lemma pure_weaken {A} (m : M A) (P Q : A -> Prop) : pure m P -> (forall a, P a -
 Proof. intros H HPQ s. specialize (H s). destruct (m s); [destruct H; split; auto | exact H]. Qed.
 Lemma pure_fail {A} (Q : A -> Prop) : pure fail Q.
 Proof. intros s. reflexivity. Qed.
+Lemma pure_oof {A} (Q : A -> Prop) : pure oof Q.
+Proof. intros s. reflexivity. Qed.
 Lemma pure_require b : pure (require b) (fun _ => b = true).
 Proof. intros s. unfold require. destruct b; [split; reflexivity | reflexivity]. Qed.
 Lemma pure_on_str {A} (f : ast -> A * ast) : pure (on_str f) (fun _ => True).
@@ -78,7 +80,7 @@ Definition all {A} (f : A -> bool) (l : list A) : Prop := forallb f l = true.
 
 Lemma pure_atoms_loop seps fuel : pure (m_atoms_loop fuel seps) (all atom_ok).
 Proof.
-  induction fuel as [|f IH]; [apply pure_fail|]. cbn [m_atoms_loop].
+  induction fuel as [|f IH]; [apply pure_oof|]. cbn [m_atoms_loop].
   pb; [apply pure_m_lit|]. pb; [apply pure_require|]. pb; [apply pure_peek|].
   assert (Ha : atom_ok a = true).
   { unfold lit_ok, atom_ok, ATOM_MAX in *. rewrite Z.abs_eq in H by lia. lia. }
@@ -94,7 +96,7 @@ Qed.
 
 Lemma pure_lits_loop fuel : pure (m_lits_loop fuel) (all lit_ok).
 Proof.
-  induction fuel as [|f IH]; [apply pure_fail|]. cbn [m_lits_loop].
+  induction fuel as [|f IH]; [apply pure_oof|]. cbn [m_lits_loop].
   pb; [apply pure_m_lit|]. pb; [apply pure_mtok|]. destruct a0.
   - pb; [apply IH|]. apply pure_ret. unfold all in *. cbn [forallb]. now rewrite H.
   - apply pure_ret. unfold all. cbn [forallb]. now rewrite H.
@@ -109,7 +111,7 @@ Proof. unfold m_cond. pb; [apply pure_mtok|]. destruct a; [apply pure_m_lits | n
 
 Lemma pure_agg_loop fuel : pure (m_agg_loop fuel) (all (wlit_ok false)).
 Proof.
-  induction fuel as [|f IH]; [apply pure_fail|]. cbn [m_agg_loop].
+  induction fuel as [|f IH]; [apply pure_oof|]. cbn [m_agg_loop].
   pb; [apply pure_m_lit|]. pb; [apply pure_mtok|].
   eapply (pure_bind _ _ (fun v => int_ok v = true)); [destruct a0; [apply pure_m_int | now apply (pure_ret 1 (fun v => int_ok v = true))] | intros ? ?].
   assert (Hw : wlit_ok false (a, a1) = true) by (unfold wlit_ok; cbn [fst snd]; now rewrite H, H1).
@@ -131,12 +133,12 @@ Qed.
 (* terms: any byte string *)
 Lemma pure_ident_loop fuel : forall sym, pure (m_ident_loop fuel sym) (fun _ => True).
 Proof.
-  induction fuel as [|f IH]; intros sym; [apply pure_fail|]. cbn [m_ident_loop].
+  induction fuel as [|f IH]; intros sym; [apply pure_oof|]. cbn [m_ident_loop].
   pb; [apply pure_get|]. pb; [apply pure_peek|]. destruct (is_alnum a0 || (a0 =? 95)); [apply IH | now apply pure_ret].
 Qed.
 Lemma pure_str_loop fuel : forall q sym, pure (m_str_loop fuel q sym) (fun _ => True).
 Proof.
-  induction fuel as [|f IH]; intros q sym; [apply pure_fail|]. cbn [m_str_loop].
+  induction fuel as [|f IH]; intros q sym; [apply pure_oof|]. cbn [m_str_loop].
   pb; [apply pure_peek|]. destruct (negb (a =? 0) && (negb (a =? 34) || q)); [|now apply pure_ret].
   pb; [apply pure_get | apply IH].
 Qed.
@@ -147,7 +149,7 @@ Proof.
 Qed.
 Lemma pure_arg_loop fuel : forall p sym, pure (m_arg_loop fuel p sym) (fun _ => True).
 Proof.
-  induction fuel as [|f IH]; intros p sym; [apply pure_fail|]. cbn [m_arg_loop].
+  induction fuel as [|f IH]; intros p sym; [apply pure_oof|]. cbn [m_arg_loop].
   pb; [apply pure_peek|]. destruct (a =? 0); [now apply pure_ret|].
   destruct (a =? 34); [pb; [apply pure_m_str | apply IH]|].
   destruct ((a =? 41) && (p - 1 <? 0)); [now apply pure_ret|].
@@ -156,7 +158,7 @@ Proof.
 Qed.
 Lemma pure_args_loop fuel : forall sym, pure (m_args_loop fuel sym) (fun _ => True).
 Proof.
-  induction fuel as [|f IH]; intros sym; [apply pure_fail|]. cbn [m_args_loop].
+  induction fuel as [|f IH]; intros sym; [apply pure_oof|]. cbn [m_args_loop].
   pb; [apply pure_remaining|]. pb; [apply pure_arg_loop|]. pb; [apply pure_mtok|]. destruct a1; [apply IH | now apply pure_ret].
 Qed.
 Lemma pure_m_term : pure m_term (fun _ => True).
@@ -178,14 +180,14 @@ Qed.
 
 Lemma pure_skip_line fuel : pure (skip_line fuel) (fun _ => True).
 Proof.
-  induction fuel as [|f IH]; [apply pure_fail|]. cbn [skip_line]. pb; [apply pure_peek|]. destruct (a =? 0); [now apply pure_ret|].
+  induction fuel as [|f IH]; [apply pure_oof|]. cbn [skip_line]. pb; [apply pure_peek|]. destruct (a =? 0); [now apply pure_ret|].
   pb; [apply pure_get|]. destruct (a0 =? 10); [now apply pure_ret | apply IH].
 Qed.
 Lemma pure_m_skip_line : pure m_skip_line (fun _ => True).
 Proof. unfold m_skip_line. pb; [apply pure_remaining | apply pure_skip_line]. Qed.
 Lemma pure_skip_comments fuel : pure (m_skip_comments fuel) (fun _ => True).
 Proof.
-  induction fuel as [|f IH]; [apply pure_fail|]. cbn [m_skip_comments]. pb; [apply pure_peek|].
+  induction fuel as [|f IH]; [apply pure_oof|]. cbn [m_skip_comments]. pb; [apply pure_peek|].
   destruct (a =? 37); [pb; [apply pure_m_skip_line | apply IH] | now apply pure_ret].
 Qed.
 
@@ -321,7 +323,7 @@ Qed.
 
 Lemma safe_m_statements inc fuel : safe 2 (m_statements fuel inc) (fun _ => True) 2.
 Proof.
-  induction fuel as [|f IH]; [apply safe_pure, pure_fail|]. cbn [m_statements].
+  induction fuel as [|f IH]; [apply safe_pure, pure_oof|]. cbn [m_statements].
   sp pure_peek. destruct (a =? 0); [now apply safe_pure, pure_ret|].
   destruct (a =? 46); [sp pure_mtok; exact IH|].
   destruct (a =? 35); [eapply safe_bind; [apply safe_m_directive | intros b _; destruct b; [exact IH | now apply safe_pure, pure_ret]]|].
@@ -331,7 +333,7 @@ Qed.
 
 Lemma safe_m_steps inc fuel : safe 1 (m_steps fuel inc) (fun _ => True) 1.
 Proof.
-  induction fuel as [|f IH]; [apply safe_pure, pure_fail|]. cbn [m_steps].
+  induction fuel as [|f IH]; [apply safe_pure, pure_oof|]. cbn [m_steps].
   eapply (safe_bind 1 2 1 _ _ (fun _ => True)); [intros s Hi; split; [exact I | now apply inv_begin]|]. intros _ _.
   sp pure_remaining. eapply safe_bind; [apply safe_m_statements|]. intros _ _.
   eapply (safe_bind 2 1 1 _ _ (fun _ => True)); [intros s Hi; split; [exact I | now apply inv_end]|]. intros _ _.
